@@ -75,19 +75,24 @@ func (ld *Layerdefs) expandConfigMounts(layer *Layerinfo) ([]expandedNeededMount
 
 
 func makeSymlinkInDirectory(source, target string) error {
-	if !fs.IsSymlink(target) {
-		targetDir := path.Dir(target)
-		if !fs.IsDir(targetDir) {
-			err := fs.Mkdir(targetDir)
-			if err != nil {
-				return err
-			}
+	if fs.IsSymlink(target) {
+		linktarg, err := fs.Readlink(target)
+		if err == nil && linktarg == source {
+			return nil
 		}
-		if err := fs.Symlink(target, source); err != nil {
+		// a stale link: it points somewhere else
+		if err = fs.Remove(target); err != nil {
 			return err
 		}
 	}
-	return nil
+	targetDir := path.Dir(target)
+	if !fs.IsDir(targetDir) {
+		err := fs.Mkdir(targetDir)
+		if err != nil {
+			return err
+		}
+	}
+	return fs.Symlink(target, source)
 }
 
 
@@ -108,16 +113,26 @@ func (ld *Layerdefs) makeExportSymlinks(layer *Layerinfo) error {
 	if err != nil {
 		return err
 	}
+	explicit := map[string]bool{}
 	for _, pair := range exports {
 		err = makeSymlinkInDirectory(pair.Source, pair.Mount)
 		if err != nil {
 			return err
 		}
+		explicit[pair.Mount] = true
 	}
 	for _, item := range ld.automatedLayerExportPaths(layer) {
+		if explicit[item.Mount] {
+			continue
+		}
 		if fs.Exists(item.Source) {
 			err = makeSymlinkInDirectory(item.Source, item.Mount)
 			if err != nil {
+				return err
+			}
+		} else if fs.IsSymlink(item.Mount) {
+			// a stale link to a directory that no longer exists
+			if err = fs.Remove(item.Mount); err != nil {
 				return err
 			}
 		}
